@@ -224,7 +224,11 @@ def oracle_scaling(case):
             for k in (1, 2):
                 n += 1
                 x, y = getattr(a, dist).moment(k, center=False), getattr(r0, dist).moment(k, center=False)
-                if not rel(x, y, 1e-9):
+                # the property claims "changes nothing" in the moderate-scale regime only (all sizes within [1/8, 8]): 1e-9 there;
+                # outside it (epoch-contrast cases) the two must still agree to 1e-6 - a factor carried over between epochs is O(1)
+                sizes_ = [float(v) for dd in spec['pop_sizes'].values() for v in (dd.values() if isinstance(dd, dict) else [dd])]
+                tol_ = 1e-9 if (min(sizes_) >= 0.125 and max(sizes_) <= 8.0) else 1e-6
+                if not rel(x, y, tol_):
                     fails.append({'what': 'switching the regularisation off changes a moment', 'statistic': f'{dist} k={k}',
                                   'regularized': x, 'unregularized': y})
     return fails, n, {k: v[0] for k, v in vals.items()}
